@@ -52,6 +52,10 @@ claim("C25", "Proof that VerifyProof computes and compares the MAC and records t
 claim("C27", "Proof that unpackOAuthCookie is panic-free for every cookie string, parses fields only after the MAC verified and keeps every field inside the payload; proof of packOAuthCookie's payload layout; the length-prefix exactness obligations fail for fields >= 64 KiB and are recorded as a known finding.",
       "HMAC/base64 idealisation.", ["validateReturnTo / validateOriginalURL and the callback gates are not under contract yet", "round-trip lemma over the two layouts"])
 
+claim("C33", "Proof (data-flow contracts) that the unique part of every S3 and GCS object key is rendered from a fresh random source: s3.generateUUID formats bytes obtained from crypto/rand, S3Storage.Upload and GCSStorage.Upload build the key as prefix + that text (+ extension).",
+      "crypto/rand.Read and uuid.New return values that differ from all others (standard idealisation, trusted/storage.spec).", ["that the storage service does not alias distinct keys"],
+      pkgs=[{"dir": "/repo/vgirpc/s3", "pattern": "."}, {"dir": "/repo/vgirpc/gcs", "pattern": "."}])
+
 # properties not claimed: reason
 NOT_APPLICABLE = {
     "C11": "relational two-run equivalence between the pipe loop and the HTTP handlers routed through gob, AEAD and Arrow IPC; contracts here are single-run and per function",
